@@ -93,6 +93,44 @@ theorem general_least_squares (pts : List (ℚ × ℚ)) (f0 f1 f2 : ℚ → ℚ)
   have k2 := hf2.elim h2 (zero_col f2 f2)
   exact sse_min pts (fun p => p.2) (fun p => f0 p.1) (fun p => f1 p.1) (fun p => f2 p.1) a b c h0 k1 k2 a' b' c'
 
+/-! ### Uniqueness ("match an exact rational solution of the normal equations") -/
+
+/-- The linear fit is THE solution of the normal equations: any pair `(a', b')` whose residuals are orthogonal to
+    `x` and `1` equals the returned pair. -/
+theorem linear_solution_unique (xs ys : List ℚ) (o : Fit) (a b a' b' : ℚ)
+    (hset : GenQ.CurveFitting.set [.list xs, .list ys] = .ok o) (hfit : linear_fitting o = .ok (a, b))
+    (h0 : S (xs.zip ys) (fun p => (p.2 - (a' * p.1 + b')) * p.1) = 0)
+    (h1 : S (xs.zip ys) (fun p => p.2 - (a' * p.1 + b')) = 0) : a' = a ∧ b' = b := by
+  obtain ⟨k0, k1⟩ := linear_normal_equations xs ys o a b hset hfit
+  obtain ⟨rfl, hlen⟩ := set_two_lists_ok hset
+  obtain ⟨hd, _, _⟩ := linear_ok (ne_nil_of_two_le hlen) hfit
+  have hd0 := ne_zero_of_not_lt_TOL hd
+  -- the difference of the two residuals is (a - a') x + (b - b'); it is orthogonal to x and 1
+  have d0 : S (xs.zip ys) (fun p => ((a - a') * p.1 + (b - b') * 1) * p.1) = 0 := by
+    have : S (xs.zip ys) (fun p => ((a - a') * p.1 + (b - b') * 1) * p.1)
+        = S (xs.zip ys) (fun p => (p.2 - (a' * p.1 + b')) * p.1) - S (xs.zip ys) (fun p => (p.2 - (a * p.1 + b)) * p.1) := by
+      induction xs.zip ys with
+      | nil => simp
+      | cons p t ih => simp only [S_cons]; linear_combination ih
+    rw [this, h0, k0, sub_zero]
+  have d1 : S (xs.zip ys) (fun p => ((a - a') * p.1 + (b - b') * 1) * 1) = 0 := by
+    have : S (xs.zip ys) (fun p => ((a - a') * p.1 + (b - b') * 1) * 1)
+        = S (xs.zip ys) (fun p => p.2 - (a' * p.1 + b')) - S (xs.zip ys) (fun p => p.2 - (a * p.1 + b)) := by
+      induction xs.zip ys with
+      | nil => simp
+      | cons p t ih => simp only [S_cons]; linear_combination ih
+    rw [this, h1, k1, sub_zero]
+  rw [S_lin2] at d0 d1
+  have e1 : S (xs.zip ys) (fun _ : ℚ × ℚ => (1 : ℚ) * 1) = sN (xs.zip ys) := by rw [S_const]; simp [sN]
+  have e2 : S (xs.zip ys) (fun p : ℚ × ℚ => p.1 * 1) = sX (xs.zip ys) := S_congr (fun p _ => mul_one _)
+  have e3 : S (xs.zip ys) (fun p : ℚ × ℚ => (1 : ℚ) * p.1) = sX (xs.zip ys) := S_congr (fun p _ => one_mul _)
+  rw [e3] at d0
+  rw [e1, e2] at d1
+  have hdet : sXX (xs.zip ys) * sN (xs.zip ys) - sX (xs.zip ys) * sX (xs.zip ys) ≠ 0 := by
+    intro h; apply hd0; linear_combination h
+  obtain ⟨ua, ub⟩ := unique2 (sXX (xs.zip ys)) (sX (xs.zip ys)) (sN (xs.zip ys)) (a - a') (b - b') hdet d0 d1
+  exact ⟨(sub_eq_zero.mp ua).symm, (sub_eq_zero.mp ub).symm⟩
+
 /-! ### Exact recovery of noiseless data -/
 
 /-- Data lying exactly on a line `y = a0 x + b0` give back `(a0, b0)`. -/
